@@ -8,7 +8,10 @@
     Models: model/SigHash.v (CalcInputPreimage, CalcInputPreimageLegacy, CalcInputSignatureHash),
     model/TxMutate.v (the mutations on a go-bt transaction object), model/Interp.v + model/CheckSig.v
     (interpreter with the signature opcodes over an ECDSA oracle).
-    Proofs: proofs/CommitProofs.v, proofs/CommitModelProofs.v, proofs/P2PKHProofs.v, proofs/SignedCoverageProofs.v.
+    model/Sign.v (the SIGNING path: unlocker.Simple.UnlockingScript, Tx.FillInput, Tx.FillAllInputs over an ECDSA
+    signer record).
+    Proofs: proofs/CommitProofs.v, proofs/CommitModelProofs.v, proofs/P2PKHProofs.v, proofs/SignedCoverageProofs.v,
+    proofs/SignProofs.v.
 
     The property has three parts:
     (a) a library-signed P2PKH / P2PKH-inscription input is accepted   — [C04_signed_p2pkh_accepts],
@@ -27,7 +30,7 @@ From Coq Require Import Strings.Byte.
 From GoBT Require Import lib.Bytes lib.VarInt lib.Sha256 lib.Ripemd160 model.Tx spec.DigestSpec spec.CommitSpec model.SigHash
   model.SigHashWire model.TxMutate model.ScriptNum model.Interp model.CheckSig proofs.SigHashProofs proofs.CommitProofs
   proofs.CommitModelProofs proofs.P2PKHProofs proofs.SignedCoverageProofs proofs.AuditAC04 proofs.AuditACommit
-  proofs.AuditASigHash.
+  proofs.AuditASigHash model.Push model.Classify model.Sign proofs.SignProofs.
 Import ListNotations.
 Local Open Scope N_scope. Local Open Scope bool_scope.
 
@@ -439,6 +442,180 @@ Theorem C04_sighash_ignores_unlocking_scripts : forall t1 t2 i ht inp1 sc,
   fst (calc_input_signature_hash t1 i ht) = fst (calc_input_signature_hash t2 i ht).
 Proof. exact sighash_ignores_unlocking_scripts. Qed.
 Print Assumptions C04_sighash_ignores_unlocking_scripts.
+
+(** * the SIGNING path (model/Sign.v): what unlocker.Simple / FillInput / FillAllInputs produce
+
+    [signer]: the bec.PrivateKey as a record (compressed public key, digest -> DER signature or error), quantified
+    like the oracle.  [signer_ok]: the key is 33 bytes starting 02 / 03 and signatures have 1..74 bytes.
+    [default_type ht] = 0x41 (ALL|FORKID) if ht = 0, else ht. *)
+
+(** (1) whenever unlocker.Simple.UnlockingScript returns a script, for ANY requested type: the input exists, its
+    previous script is present and ScriptType says P2PKH or P2PKH-inscription, and the script is
+    push(sig ++ [ht']) push(pubkey) = [p2pkh_unlock sig ht' pk] where ht' is the DEFAULTED type and sig is what the
+    key signs over CalcInputSignatureHash(idx, ht') of the transaction as it stands *)
+Theorem C04_unlocking_script_is_p2pkh_unlock : forall s t idx ht u, signer_ok s ->
+  unlocking_script s t idx ht = SgOk u ->
+  exists inp prev sig h,
+    nthN (tx_ins t) idx = Some inp /\ in_script inp = Some prev /\
+    (script_type prev = Checked.Ok TPubKeyHash \/ script_type prev = Checked.Ok TInscription) /\
+    fst (calc_input_signature_hash t idx (default_type ht)) = SOk h /\ sg_sign s h = Some sig /\
+    u = p2pkh_unlock sig (default_type ht) (sg_pub s).
+Proof. exact unlocking_script_is_p2pkh_unlock. Qed.
+Print Assumptions C04_unlocking_script_is_p2pkh_unlock.
+
+(** the ScriptType gate: any other kind of previous script is refused with "currently only p2pkh supported", a nil
+    previous script with ErrEmptyPreviousTxScript, before anything is hashed or signed *)
+Theorem C04_unlocking_script_gate : forall s t idx ht inp prev ty,
+  nthN (tx_ins t) idx = Some inp -> in_script inp = Some prev -> script_type prev = Checked.Ok ty ->
+  ty <> TPubKeyHash -> ty <> TInscription ->
+  unlocking_script s t idx ht = SgErr ENotP2PKH.
+Proof. exact unlocking_script_gate. Qed.
+Print Assumptions C04_unlocking_script_gate.
+Theorem C04_unlocking_script_nil_prev : forall s t idx ht inp,
+  nthN (tx_ins t) idx = Some inp -> in_script inp = None -> unlocking_script s t idx ht = SgErr EEmptyPrevScript.
+Proof. exact unlocking_script_nil_prev. Qed.
+Print Assumptions C04_unlocking_script_nil_prev.
+
+(** (2) the hash-type byte opcodeCheckSig will read off the script ([carried_hash_type]: last byte of the first
+    pushed item, as in [checksig_run]) is the type the signed digest was computed for - for every requested type
+    0..255; 0 is signed AND labelled as 0x41 *)
+Theorem C04_carried_type_is_digest_type : forall s t idx ht u, ht < 256 -> signer_ok s ->
+  unlocking_script s t idx ht = SgOk u ->
+  exists sig h,
+    fst (calc_input_signature_hash t idx (default_type ht)) = SOk h /\ sg_sign s h = Some sig /\
+    carried_signature u = Some sig /\ carried_hash_type u = Some (default_type ht).
+Proof. exact carried_type_is_digest_type. Qed.
+Print Assumptions C04_carried_type_is_digest_type.
+Theorem C04_carried_type_cases : forall s t idx ht u, ht < 256 -> signer_ok s ->
+  unlocking_script s t idx ht = SgOk u -> carried_hash_type u = Some (if ht =? 0 then 65 else ht).
+Proof. exact carried_type_cases. Qed.
+Print Assumptions C04_carried_type_cases.
+
+(** Tx.FillInput = default the type, call the unlocker, store the script in the input (nothing else changes);
+    defaulting twice is defaulting once *)
+Theorem C04_fill_input_inv : forall s t idx ht t', fill_input (Some s) t idx ht = SgOk t' ->
+  exists u, unlocking_script s t idx ht = SgOk u /\ t' = with_unlock_at t idx u.
+Proof. exact fill_input_inv. Qed.
+Print Assumptions C04_fill_input_inv.
+(** and on a plain P2PKH input it succeeds whenever the digest exists and the key signs *)
+Theorem C04_fill_input_p2pkh_succeeds : forall s t idx ht inp pkh h sig, signer_ok s ->
+  nthN (tx_ins t) idx = Some inp -> in_script inp = Some (p2pkh_lock pkh) -> length pkh = 20%nat ->
+  fst (calc_input_signature_hash t idx (default_type ht)) = SOk h -> sg_sign s h = Some sig ->
+  fill_input (Some s) t idx ht = SgOk (with_unlock_at t idx (p2pkh_unlock sig (default_type ht) (sg_pub s))).
+Proof. exact fill_input_p2pkh_succeeds. Qed.
+Print Assumptions C04_fill_input_p2pkh_succeeds.
+
+(** (3) (a) for the signing path: an input that spends a P2PKH / P2PKH-inscription output paying to the signing key
+    and was filled by FillInput (any requested type) is accepted by the interpreter model run on the FILLED
+    transaction.  Residual hypotheses: apply's flag sanity and script-size limit, the envelope body being push-only,
+    the defaulted type being allowed by the flags ([check_hash_type]), legacy stripping finding nothing - and THE
+    oracle hypothesis [oracle_accepts_signer]: the key parses, and what the key signs over the digest at hand is
+    well encoded, parses and verifies.  The shape of the script, its size, the digest being the engine's, the key
+    encoding, "MINIMALDATA needs a non-empty signature" are all discharged. *)
+Theorem C04_filled_input_accepted : forall (orc : sig_oracle) (s : signer) (t t' : tx) (idx : N) (inp : input)
+    (flags ht : N) (body : bytes) (insc : bool) (bops : list pop),
+  let ht' := default_type ht in
+  let pk := sg_pub s in
+  let lock := p2pkh_lock (hash160 pk) ++ (if insc then inscription_suffix body else []) in
+  let c := mkCtx (normalise_flags flags) true (Z.of_N (tx_lock t)) (Z.of_N (tx_version t)) (Z.of_N (in_seq inp)) false in
+  wf_tx t -> idx + 1 < two32 -> ht < 256 ->
+  nthN (tx_ins t) idx = Some inp -> in_script inp = Some lock ->
+  signer_ok s ->
+  fill_input (Some s) t idx ht = SgOk t' ->
+  (has_flag c F_CLEANSTACK = true -> has_flag c F_BIP16 = true) ->
+  (lenZ lock <= max_script_size c)%Z ->
+  (insc = true -> parse_ops (length body) false body 1 = Some bops /\ is_push_only bops = true /\
+                  Forall (fun p => (lenZ (p_data p) <= max_elem c)%Z) bops) ->
+  check_hash_type c ht' = true ->
+  (has_flag c F_FORKID && flag_has ht' sh_forkid = true \/
+   forall sig l, parse_script false lock = Some l -> remove_by_data l (sig ++ [n2b ht']) = l) ->
+  (forall h, fst (calc_input_signature_hash t idx ht') = SOk h -> oracle_accepts_signer orc c s h) ->
+  exists inp', nthN (tx_ins t') idx = Some inp' /\
+    in_script inp' = Some lock /\ in_sats inp' = in_sats inp /\ in_seq inp' = in_seq inp /\
+    fst (engine_execute (mk_sigops orc (engine_tx t' idx (in_unlock inp') lock (in_sats inp')) idx)
+           (mkExecInput (in_unlock inp') lock flags true true (Z.of_N (tx_lock t')) (Z.of_N (tx_version t'))
+                        (Z.of_N (in_seq inp')))) = VOk.
+Proof. exact filled_input_accepted. Qed.
+Print Assumptions C04_filled_input_accepted.
+
+(** the default type (SigHashFlags 0, what FillAllInputs uses) under the FORKID flag: only the size / flag sanity,
+    the envelope body and the oracle hypothesis remain *)
+Theorem C04_filled_input_accepted_default : forall (orc : sig_oracle) (s : signer) (t t' : tx) (idx : N) (inp : input)
+    (flags : N) (body : bytes) (insc : bool) (bops : list pop),
+  let pk := sg_pub s in
+  let lock := p2pkh_lock (hash160 pk) ++ (if insc then inscription_suffix body else []) in
+  let c := mkCtx (normalise_flags flags) true (Z.of_N (tx_lock t)) (Z.of_N (tx_version t)) (Z.of_N (in_seq inp)) false in
+  wf_tx t -> idx + 1 < two32 ->
+  nthN (tx_ins t) idx = Some inp -> in_script inp = Some lock ->
+  signer_ok s ->
+  fill_input (Some s) t idx 0 = SgOk t' ->
+  has_flag c F_FORKID = true ->
+  (has_flag c F_CLEANSTACK = true -> has_flag c F_BIP16 = true) ->
+  (lenZ lock <= max_script_size c)%Z ->
+  (insc = true -> parse_ops (length body) false body 1 = Some bops /\ is_push_only bops = true /\
+                  Forall (fun p => (lenZ (p_data p) <= max_elem c)%Z) bops) ->
+  (forall h, fst (calc_input_signature_hash t idx 65) = SOk h -> oracle_accepts_signer orc c s h) ->
+  exists inp', nthN (tx_ins t') idx = Some inp' /\
+    in_script inp' = Some lock /\ in_sats inp' = in_sats inp /\ in_seq inp' = in_seq inp /\
+    fst (engine_execute (mk_sigops orc (engine_tx t' idx (in_unlock inp') lock (in_sats inp')) idx)
+           (mkExecInput (in_unlock inp') lock flags true true (Z.of_N (tx_lock t')) (Z.of_N (tx_version t'))
+                        (Z.of_N (in_seq inp')))) = VOk.
+Proof. exact filled_input_accepted_default. Qed.
+Print Assumptions C04_filled_input_accepted_default.
+
+(** the unlocker does not read unlocking scripts: same script, or same failure, on transactions that differ in
+    them only (through [C04_sighash_ignores_unlocking_scripts]) *)
+Theorem C04_unlocking_script_ignores_unlocks : forall s t1 t2 idx ht,
+  wf_tx t1 -> wf_tx t2 -> ht < 256 -> idx + 1 < two32 -> erase_unlocks t1 = erase_unlocks t2 ->
+  unlocking_script s t1 idx ht = unlocking_script s t2 idx ht.
+Proof. exact unlocking_script_ignores_unlocks. Qed.
+Print Assumptions C04_unlocking_script_ignores_unlocks.
+
+(** (4) Tx.FillAllInputs with a getter handing out unlocker.Simple values ([key_of]: which key for which previous
+    script; unlocker.Getter is the constant one): only unlocking scripts change, and the script of input j is what
+    the unlocker returns (type ALL|FORKID) for input j of the transaction AS HANDED IN - the scripts this call has
+    filled into the inputs before j, or fills into those after j, do not influence it - which is also what it
+    returns on the completely filled transaction *)
+Theorem C04_fill_all_inputs_signs_each_input_independently : forall key_of t t',
+  wf_tx t -> N.of_nat (length (tx_ins t)) < two32 ->
+  (forall prev s, key_of prev = Some s -> signer_ok s) ->
+  fill_all_inputs (simple_getter key_of) t = SgOk t' ->
+  tx_version t' = tx_version t /\ tx_outs t' = tx_outs t /\ tx_lock t' = tx_lock t /\
+  length (tx_ins t') = length (tx_ins t) /\ erase_unlocks t' = erase_unlocks t /\ wf_tx t' /\
+  forall j inp, nth_error (tx_ins t) j = Some inp ->
+    exists s u, key_of (in_script inp) = Some s /\
+      unlocking_script s t (N.of_nat j) 65 = SgOk u /\
+      unlocking_script s t' (N.of_nat j) 65 = SgOk u /\
+      nth_error (tx_ins t') j = Some (set_unlock inp u).
+Proof. exact fill_all_inputs_signs_each_input_independently. Qed.
+Print Assumptions C04_fill_all_inputs_signs_each_input_independently.
+
+(** non-vacuity of the signing path: direct evaluation of the model.  A key whose signatures are the fixed DER
+    string [ex_sig]: FillInput with type 0 on the instance of [C04_p2pkh_hypotheses_satisfiable] stores the 0x41
+    script, with type 1 the 0x01 script; the interpreter model accepts the filled transaction; FillAllInputs fills
+    both inputs of a two-input transaction; a P2PK previous script is refused; a nil unlocker is refused *)
+Example C04_signing_direct_evaluation :
+  signer_ok ex_signer /\
+  fill_input (Some ex_signer) (P2PKHProofs.ex_tx true) 0 0 =
+    SgOk (with_unlock_at (P2PKHProofs.ex_tx true) 0 (p2pkh_unlock ex_sig 65 ex_pk)) /\
+  fill_input (Some ex_signer) (P2PKHProofs.ex_tx false) 0 1 =
+    SgOk (with_unlock_at (P2PKHProofs.ex_tx false) 0 (p2pkh_unlock ex_sig 1 ex_pk)) /\
+  (forall insc, match fill_input (Some ex_signer) (P2PKHProofs.ex_tx insc) 0 0 with
+     | SgOk t' => match tx_ins t' with
+                  | i :: _ => fst (engine_execute (mk_sigops ex_orc (engine_tx t' 0 (in_unlock i) (ex_lock insc) 1000) 0)
+                                     (mkExecInput (in_unlock i) (ex_lock insc) FLAGS_FORKID_GENESIS true true 0 1 4294967295)) = VOk
+                  | [] => False end
+     | _ => False end) /\
+  (let two := mkTx 1 [ex_inp true; ex_inp false] [mkOutput 900 [x6a]] 0 in
+   fill_all_inputs (unlocker_getter ex_signer) two =
+     SgOk (with_unlock_at (with_unlock_at two 0 (p2pkh_unlock ex_sig 65 ex_pk)) 1 (p2pkh_unlock ex_sig 65 ex_pk))) /\
+  unlocking_script ex_signer (mkTx 1 [mkInput (repeat_byte 32 xab) 0 [] 0 1 (Some (x21 :: ex_pk ++ [xac]))] [] 0) 0 0 =
+    SgErr ENotP2PKH /\
+  fill_input None (P2PKHProofs.ex_tx true) 0 0 = SgErr ENoUnlocker.
+Proof.
+  split; [exact ex_signer_ok|]. split; [vm_compute; reflexivity|]. split; [vm_compute; reflexivity|].
+  split; [intros [|]; vm_compute; reflexivity|]. split; [vm_compute; reflexivity|]. split; vm_compute; reflexivity.
+Qed.
 
 (** * non-vacuity *)
 Definition ex_tx : tx :=
